@@ -183,6 +183,7 @@ def main(tier, seed, replay=None):
                 a = [hx(v, "f64") for v in distinct_params(rng, c["meta"]["P"], lo_, hi_)]
                 b = [hx(v, "f64") for v in distinct_params(rng, c["meta"]["P"], lo_, hi_)]
                 c["threads"] = t
+                c["ref_sequential"] = True
                 c["ops"] = [["observe"], ["jac"], ["set", a], ["observe"], ["jac"], ["jac"], ["set", b], ["jac"], ["set", a], ["observe"], ["jac"],
                             ["ref", a], ["ref", b], ["ref", c["model"]["init"]]]
                 cases.append(c)
